@@ -804,13 +804,15 @@ class ReachingDefs:
             for i, s in enumerate(blk["stmts"]):
                 if s["k"] == "assign":
                     l, p = norm_place(s["place"])
-                    deref_write = any(e["k"] == "deref" for e in s["place"]["p"])
+                    # references are transparent in this model (`(*self).f = v` updates the object `self` denotes);
+                    # a write through a deref with an empty path would overwrite the referent entirely: keep it weak
+                    deref_write = any(e["k"] == "deref" for e in s["place"]["p"]) and p == ()
                     self._add((bb, i), l, p, "assign", s["rv"], not deref_write)
                     rv = s["rv"]
                     if (rv["k"] == "ref" and rv.get("mut")) or rv["k"] == "rawptr":
                         l2, p2 = norm_place(rv["place"])
-                        if not any(e["k"] == "deref" for e in rv["place"]["p"]):
-                            # `&mut L` handed to a callee: the place holds an updated value afterwards
+                        if p2 != () or not any(e["k"] == "deref" for e in rv["place"]["p"]):
+                            # `&mut L` / `&mut (*L).field` handed to a callee: the place holds an updated value afterwards
                             self._add((bb, "m%d" % i), l2, p2, "mutref", (s, i), True)
             t = blk["term"]
             if t is None:
@@ -1095,7 +1097,8 @@ class Terms:
             if idxs:
                 others = tuple(self.operand(a, bb, "t", depth + 1) for j, a in enumerate(t["args"]) if j not in idxs)
                 return ("upd", self.call_name(t), prev, others)
-        return ("mutated", local, site)
+        # the borrow is consumed elsewhere (e.g. by an awaited call): the object is the same, its contents may differ
+        return ("upd", "?", prev, ())
 
     def _rvalue(self, rv, bb, idx, depth):
         k = rv["k"]
